@@ -168,6 +168,20 @@ def r17_3(ctx):
     ctx.check(ok, f.fq, "line_offset = max(0, start_line - 1)", f.where, "offset of the first displayed line derived from the range start (1-based), 0 without a range", "line_offset is not `max(0, range_start - 1)` / 0")
     # the list that is numbered, and the one slice that selects the range from the split of the highlighted text
     enums = [x for x in walk_local(f.node) if isinstance(x, ast.For) and isinstance(x.iter, ast.Call) and call_name(x.iter) == "enumerate" and len(x.iter.args) == 2 and isinstance(x.iter.args[0], ast.Name)]
+    first_override = None
+    if not enums:
+        # form B:  for i, line in enumerate(lines):  n = <first> + i   - the displayed number is <first> + index
+        for x in walk_local(f.node):
+            if isinstance(x, ast.For) and isinstance(x.iter, ast.Call) and call_name(x.iter) == "enumerate" and len(x.iter.args) == 1 and isinstance(x.iter.args[0], ast.Name) and isinstance(x.target, ast.Tuple) and len(x.target.elts) == 2 and isinstance(x.target.elts[0], ast.Name):
+                idx_ = x.target.elts[0].id
+                for b_ in x.body:
+                    if isinstance(b_, ast.Assign) and len(b_.targets) == 1 and isinstance(b_.targets[0], ast.Name):
+                        fm = lin(_inl173(b_.value, {k_: v_ for k_, v_ in sd173.items() if k_ not in ("line_offset", idx_)}))
+                        if fm.get(idx_) == 1:
+                            rest = {k_: v_ for k_, v_ in fm.items() if k_ != idx_ and v_}
+                            first_override = rest
+                            enums = [x]
+                            break
     if len(enums) != 1:
         raise AnalysisError("Syntax.__rich_console__: the numbering loop `for n, line in enumerate(<lines>, <first>)` was not found")
     lines_v = enums[0].iter.args[0].id
@@ -184,7 +198,9 @@ def r17_3(ctx):
         start = enums[0].iter.args[1] if len(enums[0].iter.args) > 1 else ast.Constant(value=0)
         start = _inl173(start, {k_: v_ for k_, v_ in sd173.items() if k_ != "line_offset"})
         lo = norm(sl.lower) if sl.lower is not None else "0"
-        form = lin(start)
+        form = lin(start) if first_override is None else first_override
+        if first_override is not None:
+            start = ast.parse(" + ".join(f"{k_}" for k_ in first_override) or "0", mode="eval").body
         ok = form.get("self.start_line") == 1 and form.get(lo) == 1 and len([k for k in form if form[k]]) == 2 if lo != "0" else False
         ctx.check(ok, f.fq, f"lines[{lo}:...] / enumerate(lines, {norm(start)})", f"{m.relpath}:{enums[0].lineno}", f"first number = self.start_line + {lo}, the slice's own lower bound",
                   f"the lines are sliced from `{lo}` but numbered from `{norm(start)}`: the number shown next to a line is not that line's number in the source")
